@@ -220,6 +220,7 @@ typedef FixedArray<int,false,4> Fix1;
 typedef FixedArray<int,false,3,4> Fix2;
 typedef FixedArray<int,false,3,3> Fix2s;
 typedef FixedArray<int,false,2,3,4> Fix3;
+typedef FixedArray<int,false,2,3,4,5> Fix4;
 
 // rank 0: the element returned by operator() with only scalar arguments; it is read, and -1 is written through it, at once
 struct V0 : VBase {
@@ -256,6 +257,18 @@ VBase* wrap(const Array<1,double,true>& a);
 VBase* wrap(const Array<2,double,true>& a);
 VBase* wrap(const Array<3,double,true>& a);
 template <int R, class T, bool A> inline VBase* wrapc(const Array<R,T,A>& a) { return wrap(a); }
+
+// whole-view operations (V = c, V += c, B = V, V = B*2+3, sum, maxval, where, count/find): the view exercised through the
+// library's own loops; defined in drv_views_w*.cpp (drv_views_w.h)
+std::string whole_view_ops(Array<1,int>& a);
+std::string whole_view_ops(Array<2,int>& a);
+std::string whole_view_ops(Array<3,int>& a);
+std::string whole_view_ops(Array<4,int>& a);
+std::string whole_view_ops(Array<5,int>& a);
+std::string whole_view_ops(Array<6,int>& a);
+std::string whole_view_ops(Array<1,double,true>& a);
+std::string whole_view_ops(Array<2,double,true>& a);
+std::string whole_view_ops(Array<3,double,true>& a);
 
 // integer-vector indexing (IndexedArray): defined in drv_views_idx*.cpp, passive ranks 1..4
 std::string ix_op(Array<1,int>& a, const std::vector<std::string>& w);
@@ -417,15 +430,33 @@ VBase* rich_idx(Array<1,int>& a, const Tok& t, bool cf);
 VBase* rich_idx(Array<2,int>& a, const Tok& t, bool cf);
 template <class AR> inline VBase* rich_idx(AR&, const Tok&, bool) { throw BadOp(); }
 
+// ELEMENT access: operator() with only scalar arguments (no rich expression).  Every argument is passed exactly as
+// written, per position an int or end-k (2^rank combinations, const and non-const), for every kind of object: the
+// element accessors are separate functions per rank (and per const-ness) in Array.h and FixedArray.h, each resolving
+// every index against the length of its own dimension.
+template <class AR, int K, bool Done, typename... As> struct ElemDisp {
+  static VBase* go(AR& a, const Call& c, As... as) {
+    const Tok& t = c.t[K].b;
+    if (t.cls == 0) return ElemDisp<AR, K + 1, (K + 1 == ArT<AR>::rank), As..., int>::go(a, c, as..., t.k);
+    return ElemDisp<AR, K + 1, (K + 1 == ArT<AR>::rank), As..., EndX>::go(a, c, as..., endx(t.k));
+  }
+};
+template <class AR, int K, typename... As> struct ElemDisp<AR, K, true, As...> {
+  static VBase* go(AR& a, const Call& c, As... as) { return Terminal<true>::go(a, c, as...); }
+};
+
 template <class AR> inline VBase* op_slice(AR& a, const std::vector<std::string>& w, bool cf) {
   enum { R = ArT<AR>::rank };
   if ((int)w.size() != R + 1) throw BadOp();
   Call c; c.t.resize(R); c.xpos = -1; c.cf = cf;
+  bool all_scalar = true;
   for (int k = 0; k < R; ++k) {
     if (!parse_arg(w[k + 1], c.t[k])) throw BadOp();
     if (arg_rich(c.t[k])) { if (c.xpos >= 0) throw BadOp(); c.xpos = k; }
+    if (c.t[k].kind != 0) all_scalar = false;
   }
   if (c.xpos >= 0) return rich_slice(a, c);
+  if (all_scalar) return ElemDisp<AR, 0, false>::go(a, c);
   return DoSlice<AR>::go(a, c);
 }
 
@@ -687,7 +718,7 @@ template <class AR> struct V : VBase {
   int rank() const { return ArT<AR>::rank; }
   int contig() { return ArrOnly<false>::contig(a); }
   std::string indexed(const std::vector<std::string>& w) { return ix_op(a, w); }
-  std::string describe() { return describe_arr(a); }
+  std::string describe() { std::string s = describe_arr(a); return s + whole_view_ops(a); }
   VBase* apply(const std::vector<std::string>& w) { return apply_arr(a, w); }
 };
 // the FixedArray parent (owned by the main program)
@@ -721,7 +752,17 @@ template <class AR> inline VBase* make_parent(const std::vector<int>& d, AR*& ke
   for (long c = 0; c < g_vol; ++c) p[c] = (T)c;
   return new V<AR>(*keep);
 }
-VBase* make_fixed(const std::vector<int>& d, Fix1*& f1, Fix2*& f2, Fix2s*& f2s, Fix3*& f3);
+VBase* make_fixed(const std::vector<int>& d, Fix1*& f1, Fix2*& f2, Fix2s*& f2s, Fix3*& f3, Fix4*& f4);
+VBase* make_fixed4(Fix4*& f4);          // drv_views_fix4.cpp
+template <class FA> inline VBase* make_fixed_one(FA*& keep) {
+  keep = new FA;
+  int* p = keep->data();
+  set_base(p);
+  g_vol = 1;
+  for (int k = 0; k < ArT<FA>::rank; ++k) g_vol *= keep->dimension(k);
+  for (long c = 0; c < g_vol; ++c) p[c] = (int)c;
+  return new VF<FA>(keep);
+}
 
 // one per rank, defined next to V<AR>
 VBase* make_parent_1(const std::vector<int>& d, Array<1,int>*& keep);
